@@ -47,6 +47,19 @@ def streams(ctx):
             if rng.random() < 0.15:
                 stream += [rng.randrange(256) for _ in range(rng.randrange(1, 4))]
         lines.append("Feed " + gc.fmt(stream))
+    # (b2) frames around the 8-bit boundary: payloads of 250..258 bytes into buffers of 255..300 bytes (counts and sizes
+    # that do not fit a byte), back to back, all three receivers
+    for i in range(60 if thorough else 15):
+        name = gc.NAMES[i % 3]
+        cap = rng.choice([255, 256, 257, 258, 259, 260, 300])
+        lines.append("R %s %d" % (name, cap))
+        stream = []
+        for _ in range(3):
+            n = rng.choice([250, 253, 254, 255, 256, 257, 258])
+            sp = gc.special_bytes(name)
+            p = [rng.choice(sp) if rng.random() < 0.05 else rng.randrange(256) for _ in range(n)]
+            stream += gc.frame(name, p)
+        lines.append("Feed " + gc.fmt(stream))
     # witnesses of the recorded legacy findings (always executed)
     lines += ["R legacy 8", "Feed 255,172", "R legacy 3", "Feed 173,0,255,172", "R legacy 8", "Feed 172,1,2,%d,172" % gc.crc8([1, 2])]
     # (c) pure noise
